@@ -2,6 +2,8 @@
 package main
 
 import (
+	"runtime/debug"
+	"runtime/pprof"
 	"encoding/json"
 	"flag"
 	"fmt"
@@ -14,6 +16,7 @@ import (
 )
 
 func main() {
+	debug.SetGCPercent(800)
 	if len(os.Args) < 2 {
 		fmt.Fprintln(os.Stderr, "usage: symgo run|check ...")
 		os.Exit(2)
@@ -47,6 +50,7 @@ func loadProgram(repo, harness string) (*sym.Program, map[string]*ssaPkg, error)
 	p.InitPkgs["github.com/aukilabs/hagall-common/websocket"] = true
 	p.NondetRange["(*github.com/aukilabs/hagall/models.SequentialIDGenerator).New"] = true
 	p.NondetRange["(*github.com/aukilabs/hagall/models.SignedLatency).OnPing"] = true
+	p.NondetRange["(*github.com/aukilabs/hagall-common/websocket.scheduler).HandleFrame"] = true
 	return p, pk, nil
 }
 
@@ -65,8 +69,14 @@ func cmdRun(args []string) {
 	logdir := fs.String("logdir", "", "write SMT logs here")
 	maxPaths := fs.Int("maxpaths", 0, "stop after this many paths")
 	out := fs.String("out", "", "write JSON result")
+	prof := fs.String("cpuprofile", "", "write CPU profile")
 	fs.Parse(args)
 
+	if *prof != "" {
+		f, _ := os.Create(*prof)
+		pprof.StartCPUProfile(f)
+		defer pprof.StopCPUProfile()
+	}
 	t0 := time.Now()
 	p, pkgs, err := loadProgram(*repo, *harness)
 	if err != nil {
